@@ -122,4 +122,9 @@ func (szr *Sizer) GetAt(values map[string]string, idx uint16) (map[string]string
 // Reset flushes all size measurements, making the sizer available for reuse.
 func (szr *Sizer) Reset() {
 	szr.crsrs = []uint32{}
+	// the members belong to the page that was mapped: a sink name left behind makes a later
+	// page cut the ordinary value of a symbol with that name at its first line
+	szr.sink = ""
+	szr.memberSizes = make(map[string]uint16)
+	szr.totalMemberSize = 0
 }
